@@ -85,6 +85,16 @@ mut("c18_w_cg_scales_b_inplace_exception_safe", "C18",
       "    b_saved = xnp.copy(b)\n    b /= xnp.where(mult == 0, 1., mult)\n    try:\n"
       "        state = while_fn(cond_fun=cond, body_fun=body_fun, init_val=init_val)\n    finally:\n        b[...] = b_saved\n"
       "    return state[0] * mult, state[2] * mult, state[1], info\n")])
+mut("c18_x_cg_scales_b_restores_in_except_exception", "C18",
+    "run_batched_cg normalises the caller's b in place for the duration of the loop and restores it on the normal path and in an "
+    "`except Exception` handler: safe against every exception a callback or an allocation can raise, NOT against an asynchronous "
+    "interrupt (KeyboardInterrupt) delivered at a source line inside the loop",
+    [("cola/linalg/inverse/cg.py",
+      "    state = while_fn(cond_fun=cond, body_fun=body_fun, init_val=init_val)\n    return state[0] * mult, state[2] * mult, state[1], info\n",
+      "    b_saved = xnp.copy(b)\n    b /= xnp.where(mult == 0, 1., mult)\n    try:\n"
+      "        state = while_fn(cond_fun=cond, body_fun=body_fun, init_val=init_val)\n    except Exception:\n        b[...] = b_saved\n        raise\n"
+      "    b[...] = b_saved\n"
+      "    return state[0] * mult, state[2] * mult, state[1], info\n")])
 mut("c18_i_cg_updates_x0_inplace", "C18", "cg accumulates into the caller's x0 (matrix right-hand sides keep the alias)",
     [("cola/linalg/inverse/cg.py", "    x1 = x0 + alpha * p0\n", "    x0 += alpha * p0\n    x1 = x0\n")])
 mut("c18_j_init_lanczos_normalises_inplace", "C18", "init_lanczos normalises the caller's start block in place",
